@@ -1,4 +1,5 @@
 mod a2lgen;
+mod a2mlgen;
 mod c01;
 mod c02;
 mod c03;
@@ -15,6 +16,7 @@ mod c13;
 mod c14;
 mod c16;
 mod c17;
+mod c18;
 mod c20;
 mod common;
 mod docgen;
@@ -81,6 +83,7 @@ fn main() {
         "C15" => c14::run_c15(&args),
         "C16" => c16::run(&args),
         "C17" => c17::run(&args),
+        "C18" => c18::run(&args),
         "C20" => c20::run(&args),
         _ => {
             eprintln!("unknown property {prop}");
